@@ -112,3 +112,67 @@ Proof.
   intros x Hx. unfold universe. apply nodup_str_In. unfold dom_of in Hx. destruct (find_concept s n) as [c|] eqn:Ef; [|destruct Hx].
   apply in_flat_map. exists c. split; [|exact Hx]. unfold find_concept in Ef. now apply find_some in Ef as [Hin _].
 Qed.
+
+(* ------------------------------------------------------------------ closedness of whole programs *)
+Require Import Cnl2aspV.Cnl.CoreDef.
+
+Lemma closedb_app I A B : closedb I (A ++ B) = closedb I A && closedb I B.
+Proof. unfold closedb. apply forallb_app. Qed.
+
+(* the facts of a concept are closed in I exactly when I holds every declared value *)
+Lemma concept_closed U I c :
+  closedb I (flat_map (ground_rule U) (compile_concept c)) = forallb (fun v => holds I (atom_text (c_name c) [v])) (dom_terms (c_dom c)).
+Proof.
+  unfold compile_concept, dom_terms. destruct (c_dom c) as [lo hi|vals].
+  - cbn [flat_map ground_rule]. rewrite app_nil_r. unfold closedb. rewrite !forallb_map'. apply forallb_ext'. intros z. reflexivity.
+  - rewrite flat_map_map. unfold closedb. rewrite forallb_flat_map, forallb_map'. apply forallb_ext'. intros v.
+    cbn [ground_rule forallb]. rewrite andb_true_r. reflexivity.
+Qed.
+
+(* constraints and choice rules are no normal rules: nothing to be closed under *)
+Definition no_rules (G : list grule) : Prop := forall r, In r G -> match r with GRule _ _ => False | _ => True end.
+Lemma no_rules_closed I G : no_rules G -> closedb I G = true.
+Proof. intros H. unfold closedb. apply forallb_forall. intros r Hr. specialize (H r Hr). destruct r; [destruct H|reflexivity|reflexivity]. Qed.
+
+(* closedness of the whole ground program = every declared value holds, and the instances of every sentence's rules are closed *)
+Theorem program_closed (s : spec) (U : list string) (I : interp) :
+  closedb I (flat_map (ground_rule U) (compile s)) =
+  r_domains s I && forallb (fun x => closedb I (flat_map (ground_rule U) (compile_sentence s x))) (sentences s).
+Proof.
+  unfold compile. rewrite flat_map_app, closedb_app. f_equal.
+  - unfold r_domains. induction (concepts s) as [|c cs IH]; [reflexivity|]. cbn [flat_map forallb].
+    rewrite flat_map_app, closedb_app, concept_closed, IH. reflexivity.
+  - induction (sentences s) as [|x xs IH]; [reflexivity|]. cbn [flat_map forallb]. now rewrite flat_map_app, closedb_app, IH.
+Qed.
+
+Lemma cons_no_rules s U required whenpart main wh : no_rules (flat_map (ground_rule U) (compile_sentence s (SCons required whenpart main wh))).
+Proof.
+  intros r Hr. cbn [compile_sentence flat_map] in Hr. rewrite app_nil_r in Hr. cbn [ground_rule] in Hr.
+  apply in_flat_map in Hr as (sg & _ & Hr). destruct (ground_body sg _); [|destruct Hr]. destruct Hr as [<-|[]]. exact Logic.I.
+Qed.
+Lemma there_no_rules s U required neg v a b : no_rules (flat_map (ground_rule U) (compile_sentence s (SThere required neg v a b))).
+Proof.
+  intros r Hr. cbn [compile_sentence flat_map] in Hr. rewrite app_nil_r in Hr. cbn [ground_rule] in Hr.
+  apply in_flat_map in Hr as (sg & _ & Hr). destruct (ground_body sg _); [|destruct Hr]. destruct Hr as [<-|[]]. exact Logic.I.
+Qed.
+Lemma choice_no_rules s U c : no_rules (flat_map (ground_rule U) (compile_sentence s (SChoice c))).
+Proof.
+  intros r Hr. cbn [compile_sentence flat_map] in Hr. rewrite app_nil_r in Hr. unfold compile_choice in Hr.
+  destruct (card_bounds (ch_card c)) as [lb ub]. cbn [ground_rule] in Hr.
+  apply in_flat_map in Hr as (sg & _ & Hr). destruct (ground_body sg _); [|destruct Hr]. destruct Hr as [<-|[]]. exact Logic.I.
+Qed.
+
+(* without derived definitions: the ground program is closed in I exactly when I holds every declared value *)
+Definition no_definition (x : sentence) : Prop :=
+  match x with SChoice _ | SCons _ _ _ _ | SThere _ _ _ _ _ => True | _ => False end.
+Corollary program_closed_no_definitions (s : spec) (U : list string) (I : interp) :
+  (forall x, In x (sentences s) -> no_definition x) ->
+  closedb I (flat_map (ground_rule U) (compile s)) = r_domains s I.
+Proof.
+  intros H. rewrite program_closed. rewrite <- (andb_true_r (r_domains s I)) at 2. f_equal.
+  apply forallb_forall. intros x Hx. specialize (H x Hx). apply no_rules_closed.
+  destruct x as [c|? ? ? ?|required whenpart main wh|? ? ?|required neg v a b]; try destruct H.
+  - apply choice_no_rules.
+  - apply cons_no_rules.
+  - apply there_no_rules.
+Qed.
